@@ -88,9 +88,9 @@ def check_case(case, ctx):
     # the declared-parameters dictionary belongs to the caller
     now = list(parameters.items())
     if [k for k, _ in now] != [k for k, _ in declared] or any(a[1] is not b[1] for a, b in zip(now, declared)):
-        ctx.fail("parameters:dict-modified", f"to_function modified the caller's parameters dictionary: {[k for k, _ in declared]} -> {[k for k, _ in now]}")
-        parameters.clear()
-        parameters.update(declared)
+        # not judged by itself (C16 does not speak about the dictionary); what a user would see is judged below:
+        # compiling again with the dictionary they declared must still work and agree
+        ctx.label("parameters-dict-modified")
     # compiling again from the same step with the same dictionary (another level) must work and agree
     other = {0: 2, 1: 0, 2: 1}[level]
     F2 = guarded(ctx, "compile-symbolic-again", stp.to_function, other, more_out, parameters)
